@@ -45,10 +45,13 @@ func newC19(indirect int, tcpMode string, awareMax int) (*c19node, error) {
 }
 
 // tcpConn answers a TCP fallback ping according to mode.
-func tcpDial(mode string) func(addr string) (net.Conn, error) {
+func tcpDial(mode string, lateAt *time.Time) func(addr string) (net.Conn, error) {
 	return func(addr string) (net.Conn, error) {
 		if mode == "fail" {
 			return nil, fmt.Errorf("connection refused")
+		}
+		if mode == "late" {
+			time.Sleep(300 * time.Millisecond) // a slow dial (SYN retransmission)
 		}
 		a, b := net.Pipe()
 		go func() {
@@ -65,6 +68,10 @@ func tcpDial(mode string) func(addr string) (net.Conn, error) {
 			if mode == "wrongseq" {
 				seq += 7
 			}
+			if mode == "late" {
+				// the right ack, but after the probe's deadline (and within deadline + dial time)
+				time.Sleep(time.Until(*lateAt))
+			}
 			ack, _ := ml.VerifEncode(2, seq, "", nil)
 			b.Write(ack)
 		}()
@@ -74,14 +81,15 @@ func tcpDial(mode string) func(addr string) (net.Conn, error) {
 
 func c19Probe(r *rng, id string) {
 	indirect := []int{0, 1, 3}[r.intn(3)]
-	tcpMode := []string{"off", "off", "fail", "ok", "wrongseq"}[r.intn(5)]
+	tcpMode := []string{"off", "off", "fail", "ok", "wrongseq", "late"}[r.intn(6)]
 	awareMax := []int{8, 8, 2, 1}[r.intn(4)]
 	n, err := newC19(indirect, tcpMode, awareMax)
 	if err != nil {
 		return
 	}
+	var lateAt time.Time
 	if tcpMode != "off" {
-		n.tr.dial = tcpDial(tcpMode)
+		n.tr.dial = tcpDial(tcpMode, &lateAt)
 	}
 	m := n.m
 	ml.VerifAliveNode(m, 1, "T", []byte{10, 0, 0, 1}, 7946, nil, []uint8{1, 5, 2, 0, 0, 0}, nil, false)
@@ -99,6 +107,7 @@ func c19Probe(r *rng, id string) {
 	ml.VerifResetBroadcasts(m)
 	n.tr.take()
 	t0 := time.Now()
+	lateAt = t0.Add(time.Duration(s0+1)*time.Second + 100*time.Millisecond)
 	done := make(chan struct{})
 	go func() { ml.VerifProbeNodeByName(m, "T"); close(done) }()
 	synctest.Wait()
